@@ -382,3 +382,44 @@ func VerifH_C09_f4blocks() {
 		verifAssert(s.Lookup(rune(c)) == want, "decode(encode(m)) gives m[c]")
 	}
 }
+
+// VerifH_C09_coderange: CodeRange of format 4 and format 12 maps is [smallest, largest] mapped code, whatever
+// the map iteration order.
+func VerifH_C09_coderange() {
+	n := 1 + verifChoose("entries", 3)
+	var lo, hi uint32 = 0x7FFFFFFF, 0
+	var a, b rune
+	if verifChoose("format", 2) == 0 {
+		m := Format12{}
+		for i := 0; i < n; i++ {
+			k := verifU32("key")
+			verifAssume(k <= 0x10FFFF)
+			m[k] = 1
+			if k < lo {
+				lo = k
+			}
+			if k > hi {
+				hi = k
+			}
+		}
+		verifMapOrder(true)
+		a, b = m.CodeRange()
+	} else {
+		m := Format4{}
+		for i := 0; i < n; i++ {
+			k := verifU16("key")
+			m[k] = 1
+			if uint32(k) < lo {
+				lo = uint32(k)
+			}
+			if uint32(k) > hi {
+				hi = uint32(k)
+			}
+		}
+		verifMapOrder(true)
+		a, b = m.CodeRange()
+	}
+	verifMapOrder(false)
+	verifAssert(a == rune(lo) && b == rune(hi), "CodeRange is [smallest, largest] mapped code")
+	verifReach("done")
+}
